@@ -257,6 +257,11 @@ func VerifC10Web() {
 	vAssert(currentConfig() == before, "C10.web.options: serving a request changed the persistent options")
 }
 
+// vNoWriter cannot open any output file.
+type vNoWriter struct{}
+
+func (vNoWriter) Open(name string) (io.WriteCloser, error) { return nil, errVerifNotFound }
+
 // vScriptUI feeds a fixed script to the real interactive loop.
 type vScriptUI struct {
 	vNullUI
@@ -285,6 +290,7 @@ var vC10Lines2 = []string{
 	"traces",
 	"top 1 -cum",
 	"list main",
+	"top work >/unwritable/out.txt",
 }
 
 var vC10Assign = []string{"", "focus=work", "nodecount=1", "granularity=lines", "hide=leaf"}
@@ -312,12 +318,16 @@ func VerifC10Interactive() {
 	}
 	script = append(script, a, b, a)
 	ui := &vScriptUI{lines: script}
-	o := &plugin.Options{UI: ui}
+	o := &plugin.Options{UI: ui, Writer: vNoWriter{}}
 	var results []vCmdResult
 	saved := generateReportWrapper
 	generateReportWrapper = func(cp *profile.Profile, cmd []string, cfg config, o *plugin.Options) error {
 		r := vCmdResult{cfg: cfg}
 		_, rpt, err := generateRawReport(cp, cmd, cfg, o)
+		if err == nil && cfg.Output != "" {
+			// as generateReport: the report is built (the profile filtered) and then the output file cannot be opened
+			_, err = o.Writer.Open(cfg.Output)
+		}
 		if err != nil {
 			r.err = true
 			results = append(results, r)
